@@ -5,6 +5,9 @@ from .npmodel import LAZY, cast, kind_of_scalar, raise_py
 from .npmodel2 import (where_enum, where_enum2, arr_sum, arr_all, MaskSel, count_true, materialise, is_slice)
 
 
+ROUND = z3.Function('py_round', z3.RealSort(), z3.IntSort())
+
+
 def register(M):
     ex = M.ex
     B, E, ME = M.builtins, M.ext, M.methods
@@ -36,6 +39,8 @@ def register(M):
         if isinstance(v, IvVal):
             return z3.If(v.kind == 0, z3.IntVal(2), z3.IntVal(-1))     # only reached after the type test
         if isinstance(v, SDict):
+            if getattr(v, 'keys_range', None) is not None:
+                return M.nonneg_diff(v.keys_range[1], v.keys_range[0])
             return set_card(v.dom, st)
         if isinstance(v, SSet):
             return set_card(v, st)
@@ -219,8 +224,8 @@ def register(M):
             return round(v)
         if z3.is_int(v):
             return v
-        r = z3.Int(fresh_name('round'))
-        # round-half-even: |r - v| <= 1/2 (ties are left unspecified between the two neighbours)
+        r = ROUND(v)
+        # round-half-even: |r - v| <= 1/2 (ties are left unspecified between the two neighbours); a function of its argument
         st.assume(z3.And(to_real(r) - v <= z3.RealVal('1/2'), v - to_real(r) <= z3.RealVal('1/2')))
         ex.use('A-REAL:round(x) is an integer within 1/2 of x')
         return r
@@ -267,8 +272,10 @@ def register(M):
                 if isinstance(value, SList):
                     return SList(subst(value.n, [(bv, x)]) if is_z3(value.n) else value.n, lambda k: subst(value.get(k), [(bv, x)]), value.elem)
                 return subst(value, [(bv, x)])
-            return st.alloc(SDict(SSet(lambda x: subst(guard, [(bv, x)]) if is_z3(guard) else guard, INT), valf,
-                                  type_of(value) if not isinstance(value, SList) else TList(value.elem)))
+            d = SDict(SSet(lambda x: subst(guard, [(bv, x)]) if is_z3(guard) else guard, INT), valf,
+                      type_of(value) if not isinstance(value, SList) else TList(value.elem))
+            d.keys_range = getattr(loc, 'last_range', None)
+            return st.alloc(d)
         pv = lazy_or(st, v)
         if isinstance(pv, SList) and isinstance(pv.elem, TTuple) and len(pv.elem.elts) == 2:
             # dict(list of (key, value)): later duplicates win; we require (and assume via obligation) distinct keys
@@ -481,7 +488,27 @@ def register(M):
         return st.alloc(SArr((a.shape[0],), lambda i: a.get(i, i), a.kind))
     E['numpy.diag'] = np_diag
 
+    def exact_sum_of(L, st):
+        reg = st.ghost.get('exact_sums', ())
+        for (c0, g0) in reg:
+            if g0 is L.get:
+                return c0
+        c = z3.Real(fresh_name('exact_sum'))
+        k = bvar('k')
+        st.assume(IMPLIES(forall([k], IMPLIES(in_range(k, 0, L.n), AND(Z(num(L.get(k))) >= 0, Z(num(L.get(k))) <= 1))), AND(c >= 0, c <= to_real(Z(L.n)))))
+        st.ghost['exact_sums'] = tuple(reg) + ((c, L.get),)
+        return c
+    M.exact_sum_of = exact_sum_of
+
     def np_sum(args, kw, st, node):
+        pv0 = lazy_or(st, args[0])
+        if isinstance(pv0, SList) and isinstance(pv0.elem, TReal) and 'axis' not in kw and len(args) == 1:
+            # FP-EQ: the floating-point sum of a list of floats is the exact sum up to a relative error of 1e-12
+            ex_ = exact_sum_of(pv0, st)
+            th = z3.Real(fresh_name('theta'))
+            st.assume(z3.And(th >= -z3.RealVal('1/1000000000000'), th <= z3.RealVal('1/1000000000000')))
+            ex.use('FP-EQ:np.sum of a python list of floats = exact sum x (1 + theta), |theta| <= 1e-12 (all other float arithmetic is exact, A-REAL)')
+            return ex_ * (1 + th)
         pv = lazy_or(st, args[0])
         a = as_arr(st, args[0])
         axis = kw.get('axis', args[1] if len(args) > 1 else None)
@@ -490,6 +517,30 @@ def register(M):
     E['numpy.sum'] = np_sum
     E['numpy.all'] = lambda args, kw, st, node: B['all']([args[0]], kw, st, node)
     E['numpy.any'] = lambda args, kw, st, node: B['any']([args[0]], kw, st, node)
+
+    def np_abs(args, kw, st, node):
+        pv = lazy_or(st, args[0])
+        ab = lambda x: z3.If(Z(num(x)) >= 0, Z(num(x)), -Z(num(x))) if is_z3(num(x)) else abs(num(x))
+        if isinstance(pv, SArr):
+            return st.alloc(SArr(pv.shape, lambda *ix: ab(pv.get(*ix)), 'int' if pv.kind == 'bool' else pv.kind))
+        return ab(pv)
+    E['numpy.abs'] = np_abs
+    E['numpy.absolute'] = np_abs
+
+    def np_isclose(args, kw, st, node):
+        a, b = lazy_or(st, args[0]), lazy_or(st, args[1])
+        rtol = kw.get('rtol', args[2] if len(args) > 2 else 1e-05)
+        atol = kw.get('atol', args[3] if len(args) > 3 else 1e-08)
+        def close(x, y):
+            d = to_real(Z(num(x))) - to_real(Z(num(y)))
+            ay = z3.If(to_real(Z(num(y))) >= 0, to_real(Z(num(y))), -to_real(Z(num(y))))
+            ad = z3.If(d >= 0, d, -d)
+            return ad <= Z(atol) + Z(rtol) * ay
+        if isinstance(a, SArr) or isinstance(b, SArr):
+            shape, ga, gb = M.broadcast(a, b, st, node)
+            return st.alloc(SArr(shape, lambda *ix: close(ga(*ix), gb(*ix)), 'bool'))
+        return close(a, b)
+    E['numpy.isclose'] = np_isclose
 
     def np_argsort(args, kw, st, node):
         a = as_arr(st, args[0])
@@ -656,6 +707,10 @@ def register(M):
     ME[('SDict', 'keys')] = lambda base, D, args, kw, st, node: st.alloc(SSet(D.dom.member, D.dom.elem))
 
     def m_values(base, D, args, kw, st, node):
+        kr = getattr(D, 'keys_range', None)
+        if kr is not None:       # dict built from a range comprehension: insertion order = increasing key
+            lo, hi = kr
+            return ('dictvalues', D, lo, hi)
         keys = st.deref(M.list_of_set(D.dom, st, sort=False))
         # insertion order is not modelled: only valid when the caller treats the result as a bag
         raise Unsupported('dict.values() order')
